@@ -505,6 +505,54 @@ func (cs *c20Case) zombiePrune() {
 	cs.h.pf("zpr now=%d => rs=%s relay=%s %s", tick.UnixNano(), rs, relay, cs.dump())
 }
 
+// c20ProbeZombieSlot2 measures on the real store which key DeleteChannelEdges
+// with strict zombie pruning records in the second slot of the zombie index for
+// a channel whose node2 policy is the older one: 1 = node1's key, 2 = node2's
+// key, 0 = probe failed.
+func (h *c20) probeZombieSlot2() int {
+	ctx := context.Background()
+	store := graphdb.NewTestDB(h.t)
+	g, err := graphdb.NewChannelGraph(store, graphdb.WithSyncGraphCachePopulation())
+	if err != nil || g.Start() != nil {
+		return 0
+	}
+	defer func() { _ = g.Stop() }()
+	n1, n2 := h.pub(0), h.pub(1)
+	if string(n1[:]) > string(n2[:]) {
+		n1, n2 = n2, n1
+	}
+	edge, err := models.NewV1Channel(4242, c20MainNet, n1, n2, &models.ChannelV1Fields{
+		BitcoinKey1Bytes: n1, BitcoinKey2Bytes: n2,
+	})
+	if err != nil || g.AddChannelEdge(ctx, edge) != nil {
+		return 0
+	}
+	for dir, ts := range []int64{2000, 1000} {
+		pol := &models.ChannelEdgePolicy{
+			Version: lnwire.GossipVersion1, SigBytes: h.sign(0, []byte("c20-probe")).ToSignatureBytes(), ChannelID: 4242,
+			LastUpdate: time.Unix(ts, 0), ChannelFlags: lnwire.ChanUpdateChanFlags(dir),
+			TimeLockDelta: 10, MinHTLC: 1, FeeBaseMSat: 1, FeeProportionalMillionths: 1,
+		}
+		if err := g.UpdateEdgePolicy(ctx, pol); err != nil {
+			return 0
+		}
+	}
+	vg := graphdb.NewVersionedGraph(g, lnwire.GossipVersion1)
+	if err := vg.DeleteChannelEdges(ctx, true, true, 4242); err != nil {
+		return 0
+	}
+	z, _, k2, err := vg.IsZombieEdge(ctx, 4242)
+	switch {
+	case err != nil || !z:
+		return 0
+	case k2 == n1:
+		return 1
+	case k2 == n2:
+		return 2
+	}
+	return 0
+}
+
 // ---------------------------------------------------------------------------
 // cases
 
@@ -617,16 +665,30 @@ func (h *c20) caseZombiePrune(variant int) {
 		cs.submit(1, mk(other, now-expiry+3600+uint32(variant%3)-1, 1, 4, other.n2))
 		cs.zombiePrune()
 		now = cs.nowSec()
-		// resurrection attempts: each direction, signed by each party
-		// (who tries first alternates: the rightful owner of a direction may be
-		// refused, the other party may succeed)
+		// resurrection attempts: each direction, signed by each party (who tries
+		// first alternates: the rightful owner of a direction may be refused, the
+		// other party may succeed).  As soon as the zombie entry is gone the
+		// channel is re-announced, so at most one update waits for it (lnd
+		// replays several cached updates of one direction in goroutine order).
+		readded := false
+		readd := func() {
+			if readded {
+				return
+			}
+			z, _, _, err := cs.vg.IsZombieEdge(context.Background(), c.scid.ToUint64())
+			if err == nil && !z {
+				cs.submit(4, h.mkCA(c))
+				readded = true
+			}
+		}
 		for i, d := range []uint8{1 - lag, lag} {
 			signers := []int{own(c, 1-d), own(c, d)}
 			if (variant/12+i)%2 == 1 {
 				signers[0], signers[1] = signers[1], signers[0]
 			}
 			for j, s := range signers {
-				cs.submit(2+i, mk(c, now-uint32(10*i+j), d, uint32(10+2*i+j), s))
+				cs.submit(2+i, mk(c, now-uint32(100-10*i-j), d, uint32(10+2*i+j), s))
+				readd()
 			}
 		}
 		cs.submit(4, h.mkCA(c))
